@@ -674,7 +674,7 @@ def fixed_scenarios(rec, rnd, tmp):
     rec.count('fixed_description_probes', len(FIXED_PROBES))
     case = {'kind': 'fixed'}
 
-    def mk(name, rows, rules=None, csv=None, mode=None):
+    def mk(name, rows, rules=None, csv=None, mode=None, newest_first=False):
         root = os.path.join(tmp, 'fx-' + name)
         shutil.rmtree(root, ignore_errors=True)
         os.makedirs(os.path.join(root, 'config'))
@@ -685,8 +685,30 @@ def fixed_scenarios(rec, rnd, tmp):
         with open(os.path.join(root, 'config', 'merchants.rules' if rules else 'merchant_categories.csv'), 'w') as f:
             f.write(rules or csv)
         with open(os.path.join(root, 'data', 'main.csv'), 'w') as f:
-            f.write('Date,Description,Amount\n' + ''.join('2025-01-%02d,%s,%.2f\n' % (i + 2, d, a) for i, (d, a) in enumerate(rows)))
+            f.write('Date,Description,Amount\n' + ''.join('2025-01-%02d,%s,%.2f\n' % ((28 - 2 * i) if newest_first else (i + 2), d, a) for i, (d, a) in enumerate(rows)))
         return root, os.path.join(root, 'config')
+
+    # one merchant name fed by two rules with different categories, in a statement that lists the newest payment first: explain <merchant> reports what up reports
+    shared = ('[Costco Gas]\nmatch: contains("COSTCO") and amount < 60\nmerchant: Costco\ncategory: Transport\nsubcategory: Fuel\n\n'
+              '[Costco]\nmatch: contains("COSTCO")\nmerchant: Costco\ncategory: Shopping\nsubcategory: Wholesale\n')
+    for rows in ([('COSTCO GAS', 40.0), ('COSTCO WHSE', 200.0), ('COSTCO WHSE', 120.0)], [('COSTCO WHSE', 200.0), ('COSTCO GAS', 40.0), ('COSTCO GAS', 35.0)]):
+        for newest_first in (True, False):
+            root, cfg = mk('shared', rows, rules=shared, newest_first=newest_first)
+            pu, U = up_json(root, cfg)
+            pe = B.tally(root, 'explain', 'Costco', cfg, '--format', 'json')
+            rec.count('cli_runs', 2)
+            rec.count('fixed_shared_merchant_checks')
+            try:
+                m = [x for x in U['merchants'] if x['name'] == 'Costco'][0]
+                E = json.loads(pe.stdout[pe.stdout.index('{'):])
+                diffs = [(f, E.get(f), m.get(f)) for f in ('category', 'subcategory', 'total', 'count') if E.get(f) != m.get(f)]
+                if (E.get('pattern') or {}).get('matched') != (m.get('pattern') or {}).get('matched'):
+                    diffs.append(('pattern', (E.get('pattern') or {}).get('matched'), (m.get('pattern') or {}).get('matched')))
+            except Exception as e:
+                diffs = ['no answer: %s' % e]
+            if diffs:
+                rec.violation('explain-merchant-differs', f'merchant Costco fed by two rules, statement {"newest" if newest_first else "oldest"} first {rows}: explain vs up: {diffs}', case)
+            shutil.rmtree(root, ignore_errors=True)
 
     # merchants whose names differ only in letter case, in both orders of first appearance: each name explains ITS merchant
     twin = ('[A]\nmatch: contains("ACME") and amount < 50\nmerchant: ACME STORE\ncategory: Transport\nsubcategory: Upper\n\n'
